@@ -489,6 +489,13 @@ func (e *Engine) runPath(fn *ssa.Function, trail []decision, hr *HarnessRun, ses
 					}
 					hr.mu.Unlock()
 				default:
+					// a marshalled (opaque) value consumed as raw bytes by some byte-level primitive:
+					// the same codec confusion as an explicit decoder mismatch (see codecConfusion)
+					if e, ok := r.(error); ok && strings.Contains(e.Error(), "is main.VBlob, not main.VSlice") {
+						end = "codec-confusion"
+						p.obligation("INV.stored-value-read-with-the-codec-that-wrote-it:"+p.where(), "codec-confusion", "a codec.Marshal'ed value was consumed as raw bytes", tFalse)
+						break
+					}
 					end = "engine-crash"
 					hr.mu.Lock()
 					hr.EngineErr = append(hr.EngineErr, fmt.Sprintf("internal error: %v\n%s", r, shorten(string(debug.Stack()), 3000)))
